@@ -5,7 +5,7 @@ use ip::{Afi, PrefixRange};
 use netconf::message::{WriteError, WriteXml};
 use quick_xml::{events::BytesText, ElementWriter, Writer};
 
-use super::{Differences, Update, Updates};
+use super::{Differences, Ranges, Update, Updates};
 
 pub(crate) trait Load: Debug + Send + Sync {
     type Update: WriteXml + Debug + Send + Sync;
@@ -91,6 +91,11 @@ impl WriteXml for Update<'_> {
 
 impl<A: Afi> WriteXml for Differences<'_, A> {
     fn write_xml<W: Write>(&self, writer: &mut Writer<W>) -> Result<(), WriteError> {
+        if self.new.is_empty() && self.old.map_or(true, Ranges::is_empty) {
+            // nothing installed and nothing to install for this address family: writing the term
+            // would create an empty term, which cannot be read back
+            return Ok(());
+        }
         let elem = {
             let elem = writer.create_element("term");
             match (self.old, self.new.is_empty()) {
